@@ -55,6 +55,25 @@ type Case struct {
 	SpecialIsBanner string `json:"special_is_banner,omitempty"`
 	// Multi: SEVERAL banners in ONE answer (SpecialIsBanner = "multi"): shape and messages, for the oracle
 	Multi *Multi `json:"multi,omitempty"`
+	// SeenDevice: the lines of the configuration the session sees according to the model of
+	// GetCmdOutput("sh run") (a fresh prompt inside the listing ends the read); checked against the
+	// Lean driver; the change script is planned from them
+	SeenDevice []string `json:"seen_device,omitempty"`
+	// Login: variant of the login / enable dialogue (loginPreambles)
+	Login string `json:"login,omitempty"`
+}
+
+// the login / enable dialogues of the scripted device: greeting, then at every <!> one line is read
+// and echoed.  "": enable mode at once; "enable-pw": user mode, `enable` asks for the password;
+// "enable-nopw": `enable` without a question; "hostkey": the ssh client asks (yes/no) first;
+// "denied": `enable` refused; "wrong-pw": the password question is repeated
+var loginPreambles = map[string]string{
+	"":            "Enter Password:<!>banner motd  managed by NetSPoC\n" + prompt,
+	"enable-pw":   "Password:<!>banner motd  managed by NetSPoC\nrouter><!>Password: <!>" + prompt,
+	"enable-nopw": "Password: <!>banner motd  managed by NetSPoC\nrouter> <!>" + prompt + " ",
+	"hostkey":     "The authenticity of host 'router' can't be established.\nAre you sure you want to continue connecting (yes/no/[fingerprint])?<!>PASSWORD:<!>banner motd  managed by NetSPoC\n" + prompt,
+	"denied":      "Password:<!>banner motd  managed by NetSPoC\nrouter><!>% Access denied\nrouter>",
+	"wrong-pw":    "Password:<!>Password:<!>Password:",
 }
 
 // Multi describes an answer that carries two reload banners (the raw answer is in Special).
@@ -158,7 +177,7 @@ func runDialog(dir string, c *Case) Outcome {
 		replies[l] = r
 	}
 	simLog := filepath.Join(dir, "simlog")
-	sc := simScript{Prompt: prompt, Preamble: "Enter Password:<!>banner motd  managed by NetSPoC\n" + prompt,
+	sc := simScript{Prompt: prompt, Preamble: loginPreambles[c.Login],
 		Replies: replies, Log: simLog, Slow: c.Slow, Splits: c.Splits, DelayMs: c.DelayMs}
 	data, _ := json.Marshal(sc)
 	scFile := filepath.Join(dir, "script.json")
